@@ -127,10 +127,10 @@ def main(rep):
                 found = True
                 break
             if exe_model and il != model.get(cid):
-                rep.violation("correspondence", {"case": cid, "script": [script], "driver": "pure", "implementation": il, "model": model.get(cid),
-                                                 "what": "implementation and model differ"}, found_input=False)
-                found = True
-                break
+                # a divergence is reported only if no monitor fires on any case (a concrete failing input wins)
+                rep.defer_divergence({"case": cid, "script": [script], "driver": "pure", "implementation": il, "model": model.get(cid),
+                                                 "what": "implementation and model differ"})
+                continue
             validated += 1
         if not found:
             impl, model, problems2 = vlib.correspond(exe_impl, exe_model, "main", [(c, s) for c, s, _ in mcases], sandbox=True)
@@ -166,10 +166,10 @@ def main(rep):
                     found = True
                     break
                 if exe_model and il != model.get(cid):
-                    rep.violation("correspondence", {"case": cid, "script": script.split("\n"), "driver": "main", "implementation": il, "model": model.get(cid),
-                                                     "what": "implementation and model differ"}, found_input=False)
-                    found = True
-                    break
+                    # a divergence is reported only if no monitor fires on any case (a concrete failing input wins)
+                    rep.defer_divergence({"case": cid, "script": script.split("\n"), "driver": "main", "implementation": il, "model": model.get(cid),
+                                                     "what": "implementation and model differ"})
+                    continue
                 validated += 1
         for p in problems:
             rep.notes.append(p)
